@@ -309,6 +309,12 @@ def run(ctx):
                 case["dseed"] = int(rng.integers(0, 2**31 - 1))
             ctx.case(case, nontrivial=rc["n"] >= 3, klass=rc["shape"] + "/" + rc["numbering"])
             execute(ctx, case)
+        for j, rc in enumerate(G.real_recipes(rng, 1000 if ctx.quick else None)):
+            if j % ctx.nshards == ctx.shard:
+                case = {"tree": rc}
+                ctx.case(case, klass="real-morphology")
+                ctx.count("real_morphologies")
+                execute(ctx, case)
     for k, v in tap.counts.items():
         ctx.count("tap_" + k, v)
 
